@@ -52,7 +52,7 @@ def run_univariate(case):
 
     d = zoo.make(fam, th)
     ncalls = 0
-    seed = SEEDS[0] + case.get("run_seed", 0)
+    seed = case.get("seed", SEEDS[0]) + (case.get("run_seed", 0) if case.get("seed", 1) else 0)
     for kind in ("int", "generator", "none"):
         try:
             s1 = np.asarray(d.draw_sample(n, random_state=rs_of(kind, seed)), dtype=float)
@@ -219,6 +219,7 @@ def main(ctx):
         for th in pts:
             for n in ((1, 10, 1000, 100000) if q else (1, 10, 1000, 100000, 1000000)):
                 cases.append({"kind": "univariate", "family": fam, "theta": th, "n": n, "run_seed": ctx.seed})
+        cases.append({"kind": "univariate", "family": fam, "theta": zoo.MID[fam], "n": 1000, "seed": 0, "run_seed": 0})
     leaves = CORE + ["VonMisesDistribution", "GumbelR", "GeneralizedGammaDistribution", "LogNormalNormFitDistribution"]
     ns = (1, 2, 1000, 100000)
     for f0 in CORE:
